@@ -13,7 +13,28 @@ import (
 	"sync"
 	"sync/atomic"
 	"time"
+
+	"github.com/google/logger"
 )
+
+// LogLevel is the verbosity the library logger runs at in this process (recorded in the evidence).
+var LogLevel int
+
+// verboseCases counts the cases that ran inside AtVerbosity.
+var verboseCases int64
+
+// AtVerbosity runs f with the library's logger at the given verbosity and restores the process level afterwards. The
+// library's verdicts must not depend on how much it logs; at verbosity 2 every log argument it has is evaluated. Call it
+// only while no other goroutine is inside the library (the level is a plain global).
+func (x *Ctx) AtVerbosity(level int, f func()) {
+	logger.SetLevel(logger.Level(level))
+	before := atomic.LoadInt64(&x.evals)
+	defer func() {
+		logger.SetLevel(logger.Level(LogLevel))
+		atomic.AddInt64(&verboseCases, atomic.LoadInt64(&x.evals)-before)
+	}()
+	f()
+}
 
 // Tally is what was observed for one case class.
 type Tally struct {
@@ -320,6 +341,8 @@ func (x *Ctx) Finish(evidencePath string) int {
 	if x.Assume == nil {
 		x.Assume = []string{}
 	}
+	cov["library_log_verbosity"] = LogLevel
+	cov["cases_run_at_log_verbosity_2"] = atomic.LoadInt64(&verboseCases)
 	ev := map[string]any{
 		"property_id": x.Prop, "tier": x.Tier, "seed": x.Seed, "level": x.Level,
 		"coverage": cov, "assumptions": x.Assume, "wall_s": time.Since(x.start).Seconds(), "violations": x.nviol,
